@@ -5,7 +5,7 @@
    write for it (C01_Model): SQL bytes and bound values; [render] writes "?" or "$n" for each value.
    [wfb] is the property's domain: every template has as many '?' as arguments (or only @names that
    are all defined), no '$', no digit at its front or right after a '?'. *)
-From Verif Require Import Base C01_Model C01_Stmt C01_Spec C01_Proofs C01_Proofs2 C01_Proofs7.
+From Verif Require Import Base C01_Model C01_Stmt C01_Spec C01_Proofs C01_Proofs2 C01_Proofs7 C01_Proofs9.
 
 (* the values reach the driver as bound parameters, in the left-to-right order of the arguments:
    slices one per element, empty slices none (or one NULL right after '('), nil one NULL, []byte one
@@ -36,6 +36,24 @@ Proof.
   rewrite <- (vars_in_order numbered (fst tv) (snd tv) He Hw). apply placeholders_in_order; assumption.
 Qed.
 Print Assumptions c01_statement.
+
+(* non-interference: the SQL text is a function of the shape (templates, identifiers, slice
+   lengths, nil-ness, []byte lengths) and never of an argument value; no hypothesis on the domain *)
+Theorem c01_text_value_independent : forall numbered e v v',
+  shape v = shape v' -> render numbered (bval numbered e v) = render numbered (bval numbered e v').
+Proof. exact text_shape_only. Qed.
+Print Assumptions c01_text_value_independent.
+
+(* for two statements (chain + finisher) whose clause trees have the same shape *)
+Theorem c01_statement_text_value_independent : forall numbered inl ti chain f chain' f',
+  let tv := statement inl ti chain f in
+  let tv' := statement inl ti chain' f' in
+  fst tv = fst tv' -> shape (snd tv) = shape (snd tv') ->
+  render numbered (bval numbered (fst tv) (snd tv)) = render numbered (bval numbered (fst tv') (snd tv')).
+Proof.
+  intros numbered inl ti chain f chain' f' tv tv' He Hs. rewrite He. apply text_shape_only. exact Hs.
+Qed.
+Print Assumptions c01_statement_text_value_independent.
 
 (* rendered texts over pieces (used by the two theorems above) *)
 Theorem c01_placeholders_qmark_pieces : forall ps,
